@@ -211,6 +211,14 @@ def g_tt(rng, n, kmax=3, prefix_name="v"):
 
 
 _cores = None
+_clean = None
+
+
+def clean_cores():
+    global _clean
+    if _clean is None:
+        _clean = json.load(open(os.path.join(VERIF, "corpus", "clean_cores.json")))
+    return _clean
 
 
 def cores():
@@ -305,8 +313,14 @@ def g_modulated(rng, extra=True, focus=False):
         cn = [f"m{i}" for i in range(n)]
         f = [tt_to_expr(n, c["tt"][i], cn) for i in range(n)]
     alt_kind = rng.choice(["freeze", "other", "latch", "xor", "samewire", "samewire"])
+    clean_tt = None
     if focus:
-        alt_kind = rng.choice(["cycle", "cycle", "latch", "other", "xor"])
+        alt_kind = rng.choice(["cycle", "latch", "other", "clean", "clean", "clean"])
+        if alt_kind == "clean":
+            # a network over the same variables with the same number of stable motifs and no motif-avoidant attractor
+            cc = clean_cores()
+            k = next((m["motifs"] for m in cc["maa3"] if m["tt"] == c["tt"]), 1)
+            clean_tt = rng.choice(cc["clean3"].get(str(k)) or cc["clean3"]["1"])
     if alt_kind == "samewire":
         # the input switches the *function* of the module while regulators and signs stay the same
         n = 3
@@ -321,6 +335,8 @@ def g_modulated(rng, extra=True, focus=False):
     for k in range(n if alt_kind != "samewire" else 0):
         if alt_kind == "freeze":
             g = cn[k]
+        elif alt_kind == "clean":
+            g = tt_to_expr(3, clean_tt[k], cn)
         elif alt_kind == "cycle":
             g = cn[(k + 1) % n]          # positive cycle: stable motifs all-0 and all-1, no motif-avoidant attractor
         elif alt_kind == "latch":
@@ -332,7 +348,7 @@ def g_modulated(rng, extra=True, focus=False):
             g = rand_expr(rng, cn, 2)
         a, b = (f[k], g) if rng.random() < 0.5 else (g, f[k])
         lines.append(f"{cn[k]}, (i0 & ({a})) | (!i0 & ({b}))")
-    has_extra = extra and (focus or rng.random() < 0.7)
+    has_extra = extra and rng.random() < (0.5 if focus else 0.7)
     if has_extra:
         r = rng.random()
         if r < 0.4:
